@@ -127,7 +127,7 @@ Ltac negs :=
     end.
 
 Ltac passed_tac H Hp :=
-  cbv zeta in H; repeat break_eq; inv_eqs; finish_ok H; cbn in Hp; try discriminate Hp;
+  cbv zeta in H; repeat break_eq; inv_eqs; finish_ok H; cbn [r_auth] in Hp; try discriminate Hp;
   negs; (split; [congruence | assumption]).
 
 Lemma chat_passed : forall w h c m r,
